@@ -98,7 +98,8 @@ class C18(Prop):
     thorough_budget = 80000
     all_branches = ["heal:first", "heal:healed", "heal:degraded", "heal:degraded0", "heal:raise",
                     "swarm:success", "swarm:exhausted", "swarm:none", "swarm:raise", "swarm:collapse",
-                    "swarm:steplimit", "tool:plain", "tool:final", "tool:noauto", "tool:answered", "tool:raise"]
+                    "swarm:steplimit", "tool:plain", "tool:final", "tool:noauto", "tool:answered", "tool:raise",
+                    "heal:live", "tool:live"]
     assumptions = [
         "callbacks (generator, validator, worker factory, worker step, summarizer, provider, tool executor) return "
         "or raise; they do not call back into the loop that is invoking them",
@@ -149,18 +150,16 @@ class C18(Prop):
     DECAYS = ["1/10", "1/10", "0", "1/4", "1/2", "1", "2", "1/8", "3/10", "-1/4", "1/3"]
     THRS = ["9/10", "9/10", "1/2", "1/2", "1/4", "0", "1", "2/3", "1/3", "3/4", "-1", "2", "7/10", "1/10"]
 
-    def _gen_heal(self, rng):
-        mr = rng.choice(self.LIMS)
+    def _heal_scripts(self, rng, mr, real, fam=None):
         n = max(mr, 0) + 3
-        decay = rng.choice(self.DECAYS)
-        real = rng.random() < 0.35
-        fam = rng.choice(["never", "atk", "alt", "echo", "raise", "long", "random", "random"])
+        fam = fam or rng.choice(["never", "atk", "alt", "echo", "raise", "long", "random", "random", "reassign"])
         k = rng.randint(0, n)
         if real:
             fs = "A"
             bad = rng.choice("ggeLMbsntKUP")
             gs = {"never": bad, "atk": bad * k + "j", "alt": (bad + "j") * n if k % 2 else ("j" + bad) * n,
                   "echo": "e", "raise": "g" * k + "x", "long": rng.choice("LM") + "e",
+                  "reassign": "".join(rng.choice("ggrRj") for _ in range(n)) + "g",
                   "random": "".join(rng.choice("gggjeLMxbsntKUP") for _ in range(n))}[fam]
         else:
             gs = rng.choice(["g", "g", "e", "ge", "L", "M", "gMe", "j", "".join(rng.choice("gjeLMbsntKUP") for _ in range(n)),
@@ -168,11 +167,43 @@ class C18(Prop):
             inv = rng.choice("IIIWNE")
             val = rng.choice("VVHQZBT")
             fs = {"never": inv, "atk": inv * k + val, "alt": (inv + val) if k % 2 else (val + inv),
-                  "echo": "I", "raise": inv * k + "X", "long": "IW",
+                  "echo": "I", "raise": inv * k + "X", "long": "IW", "reassign": inv * k + rng.choice([val, inv]),
                   "random": "".join(rng.choice("IIIWNEVHQZBTXA") for _ in range(n))}[fam]
             if fam == "alt":
                 fs = ("".join((inv, val)[(i + k) % 2] for i in range(n)))
-        return f"heal {mr} {decay} {'real' if real else 'stub'} {gs or '-'} {fs or '-'}"
+            if fam == "reassign":
+                gs = "".join(rng.choice("ggrR") for _ in range(n)) + "g"
+        return gs or "-", fs or "-"
+
+    def _gen_heal(self, rng):
+        mr = rng.choice(self.LIMS)
+        decay = rng.choice(self.DECAYS)
+        real = rng.random() < 0.35
+        gs, fs = self._heal_scripts(rng, mr, real)
+        return f"heal {mr} {decay} {'real' if real else 'stub'} {gs} {fs}"
+
+    def _gen_heal_live(self, rng):
+        """A history on ONE ChaperoneLoop: public attributes re-assigned between the calls (limit lowered / raised after
+        construction, decay changed, generator / chaperone replaced by a new callable) and every call judged by the
+        limit in force when it is made."""
+        mr = rng.choice(self.LIMS)
+        real = rng.random() < 0.3
+        lines = [f"loop {mr} {rng.choice(self.DECAYS)} {'real' if real else 'stub'}"]
+        for _ in range(rng.choice([1, 2, 2, 3, 4])):
+            r = rng.random()
+            if r < 0.65:
+                mr = rng.choice(self.LIMS) if rng.random() < 0.6 else max(-1, mr + rng.choice([-3, -2, -1, -1, 1, 2]))
+                lines.append(f"hset mr {mr}")
+            if rng.random() < 0.25:
+                lines.append(f"hset decay {rng.choice(self.DECAYS)}")
+            if rng.random() < 0.2:
+                lines.append(f"hset {rng.choice(['gen', 'chap'])} new")
+            fam = rng.choice(["never", "never", "atk", "reassign", None, None])
+            gs, fs = self._heal_scripts(rng, mr, real, fam)
+            lines.append(f"hcall {gs} {fs}")
+            if "r" in gs:
+                mr = 0            # rough tracking only (sizes the next scripts); the harness records the exact value
+        return lines
 
     def _gen_supervise(self, rng, mreg, ms):
         nsp = max(mreg, 0) + 2
@@ -206,11 +237,24 @@ class C18(Prop):
     def _gen_swarm(self, rng):
         mreg, ms = rng.choice(self.LIMS), rng.choice(self.LIMS + [10])
         lines = [f"swarm {mreg} {ms} {rng.choice(self.THRS)}"]
-        for _ in range(rng.choice([1, 1, 2, 3])):
+        live = rng.random() < 0.4        # budgets re-assigned on the live swarm between supervise calls
+        for i in range(rng.choice([1, 1, 2, 3])):
+            if live and (i > 0 or rng.random() < 0.5):
+                r = rng.random()
+                if r < 0.5:
+                    mreg = rng.choice(self.LIMS)
+                    lines.append(f"sset mreg {mreg}")
+                if r > 0.3:
+                    ms = rng.choice(self.LIMS + [10])
+                    lines.append(f"sset ms {ms}")
+                if rng.random() < 0.25:
+                    lines.append(f"sset thr {rng.choice(self.THRS)}")
+                if rng.random() < 0.2:
+                    lines.append(f"sset {rng.choice(['factory', 'summ'])} new")
             lines.append(self._gen_supervise(rng, mreg, ms))
         return lines
 
-    def _gen_tools(self, rng):
+    def _gen_tools(self, rng, op="tools"):
         mi = rng.choice(self.LIMS + [10])
         n = max(mi, 0) + 2
         fam = rng.choice(["forever", "forever", "stopat", "none", "raise", "random"])
@@ -220,8 +264,22 @@ class C18(Prop):
         ts = rng.choice(["o", "o", "f", "of", "o" * k + "x", "".join(rng.choice("ooofxubwngLUP") for _ in range(n)),
                          "b", "w", "n", "g", "L", "U", "P"])
         cs = rng.choice(["r", "r", "r", "x", "u", "q", "t", "e", "ur", "xr", "qqr"])
-        return (f"tools {mi} {show_bool(rng.random() < 0.85)} {show_bool(rng.random() < 0.9)} "
+        # hasSchemas: 1 / 0 stub mitochondria with / without schemas; 2 / 3 the REAL Mitochondria with / without a tool
+        r = rng.random()
+        hs = "2" if r < 0.35 else "3" if r < 0.4 else "0" if r < 0.47 else "1"
+        return (f"{op} {mi} {show_bool(rng.random() < 0.85)} {hs} "
                 f"{show_bool(rng.random() < 0.9)} {ps} {ts} {cs}")
+
+    def _gen_nucleus_live(self, rng):
+        """A history on ONE Nucleus: several tool loops with different budgets, the provider attribute re-assigned for
+        every call, the log replaced / cleared and unrelated limits (max_retries, base_energy_cost) re-assigned."""
+        lines = ["nucleus"] if rng.random() < 0.8 else []
+        for _ in range(rng.choice([2, 2, 3, 4])):
+            if rng.random() < 0.3:
+                lines.append(rng.choice(["nset log new", "nset log clear", f"nset mr {rng.choice([0, 1, 2, 5])}",
+                                         f"nset cost {rng.choice([0, 1, 25])}"]))
+            lines.append(self._gen_tools(rng, "ntools"))
+        return lines
 
     def generate(self, rng, tier, n):
         for i in range(n):
@@ -233,13 +291,24 @@ class C18(Prop):
                 yield {"lines": [f"retools {rng.choice([0, 1, 2, 3, 4, 5, 6, -1])} {rng.choice([0, 1, 1, 2])} "
                                  f"{rng.choice([1, 1, 2])}"], "note": "re-entrant tool (oracle only)"}
                 continue
-            kind = rng.choice(["heal", "swarm", "tools", "mix"])
+            kind = rng.choice(["heal", "heal-live", "swarm", "swarm", "tools", "nucleus-live", "mix", "interleaved"])
             if kind == "heal":
                 lines = [self._gen_heal(rng) for _ in range(rng.choice([1, 2]))]
+            elif kind == "heal-live":
+                lines = self._gen_heal_live(rng)
             elif kind == "swarm":
                 lines = self._gen_swarm(rng)
             elif kind == "tools":
                 lines = [self._gen_tools(rng) for _ in range(rng.choice([1, 2]))]
+            elif kind == "nucleus-live":
+                lines = self._gen_nucleus_live(rng)
+            elif kind == "interleaved":
+                # several live objects at once: the three histories are merged, each keeping its own order
+                parts = [self._gen_heal_live(rng), self._gen_swarm(rng), self._gen_nucleus_live(rng)]
+                lines = []
+                while any(parts):
+                    q = rng.choice([x for x in parts if x])
+                    lines.append(q.pop(0))
             else:
                 lines = [self._gen_heal(rng)] + self._gen_swarm(rng) + [self._gen_tools(rng)]
             yield {"lines": lines, "note": "random " + kind}
@@ -267,7 +336,31 @@ class C18(Prop):
                     for ae in "10":
                         for cs in ("r", "u"):
                             tools.append({"lines": [f"tools {mi} {ae} 1 1 {''.join(ps)} o {cs}"], "note": "exhaustive tools"})
+        live = []
+        for mr0 in range(0, 4):
+            for mr1 in range(-1, 4):
+                for k in range(0, 5):
+                    fs = "I" * k + "V"
+                    live.append({"lines": [f"loop {mr0} 1/10 stub", f"hset mr {mr1}", f"hcall g {fs}"],
+                                 "note": "exhaustive live heal"})
+                    live.append({"lines": [f"loop {mr0} 1/4 stub", f"hcall g {fs}", f"hset mr {mr1}", f"hcall g {fs}",
+                                           f"hset mr {mr0}", "hcall g I"], "note": "exhaustive live heal"})
+        for mreg0 in range(0, 3):
+            for mreg1 in range(0, 3):
+                for ms0 in (0, 2):
+                    for ms1 in (0, 1, 3):
+                        live.append({"lines": [f"swarm {mreg0} {ms0} 9/10", "supervise w u h", f"sset mreg {mreg1}",
+                                               f"sset ms {ms1}", "supervise w u h", "supervise w uS h"],
+                                     "note": "exhaustive live swarm"})
+        for mi0 in range(0, 3):
+            for mi1 in range(0, 3):
+                for hs in "12":
+                    live.append({"lines": ["nucleus", f"ntools {mi0} 1 {hs} 1 1 o r", f"ntools {mi1} 1 {hs} 1 1 ox r",
+                                           "nset log new", f"ntools {mi0} 1 {hs} 1 10 o r"], "note": "exhaustive live nucleus"})
         return [
+            {"name": "live objects: a limit re-assigned between two calls on one ChaperoneLoop (constructed 0..3, "
+                     "re-assigned -1..3, validator valid at attempt 0..4), one RegenerativeSwarm (budgets 0..2 / 0..3 "
+                     "re-assigned), one Nucleus (per-call budgets 0..2, stub and real Mitochondria)", "cases": live},
             {"name": "heal: maxRetries 0..%d x all validator scripts over {invalid,valid,raise} / generator scripts over "
                      "{garbage,json,raise,empty} up to length maxRetries+2" % (3 if big else 2), "cases": heal},
             {"name": "swarm: maxRegen 0..2 x maxSteps 0..3 x step scripts over {unique,same,marker,raise} x 2 thresholds",
@@ -317,34 +410,98 @@ class C18(Prop):
             return StubFold(True, 1.0, None, j)
         return StubFold(False, 0.0, "all strategies failed", j)
 
-    def _heal(self, t):
-        mr, decay, real = intd(t[1]), float_of(t[2]), t[3] == "real"
-        gs, fs = script_of(t[4]), script_of(t[5])
-        calls = []
+    def _new_loop(self, mr, decay, real):
+        """A ChaperoneLoop whose generator / chaperone delegate to whatever adversary the current call line installed
+        (`box["adv"]`), so that one loop object can serve a history of calls.  `box` also holds what the harness itself
+        assigned to the public attributes (the oracle judges by that, not by reading the object back)."""
         prop = self
+        box = {"adv": None, "real": real, "mr": mr, "gen_id": 0, "chap_id": 0, "stale": []}
 
-        def gen(prompt, error_context=None):
-            i = len(calls)
-            if i >= CAP:
-                raise Runaway("generator")
-            rec = {"p": prompt == "P<7>", "ctx": error_context, "out": "x", "fold": "-", "raw": None, "f": None}
-            calls.append(rec)
-            raw = prop._gen_raw(pick(gs, i, "g"), i, error_context)
-            rec["out"], rec["raw"] = "o", raw
-            return raw
+        def make_gen(my_id):
+            def gen(prompt, error_context=None):
+                if my_id != box["gen_id"]:
+                    box["stale"].append("generator")
+                return box["adv"].gen(prompt, error_context)
+            return gen
 
         class Chap:
-            def __init__(self):
-                self.n = 0
+            def __init__(self, my_id):
+                self.my_id = my_id
                 self.real = prop.Chaperone(silent=True) if real else None
 
             def fold_enhanced(self, raw, schema, *a, **kw):
+                if self.my_id != box["chap_id"]:
+                    box["stale"].append("chaperone")
+                return box["adv"].fold(self.real, raw, schema, a, kw)
+        kw = {}
+        if mr is not None:
+            kw["max_retries"] = mr
+        if decay is not None:
+            kw["confidence_decay"] = decay
+        loop = self.cl.ChaperoneLoop(generator=make_gen(0), chaperone=Chap(0), schema=self.S, silent=True, **kw)
+        box["make_gen"], box["Chap"] = make_gen, Chap
+        if mr is None:
+            box["mr"] = loop.max_retries
+        return loop, box
+
+    def _hset(self, st, t):
+        if st.get("loop") is None:
+            st["loop"], st["lbox"] = self._new_loop(3, 0.1, False)
+        loop, box = st["loop"], st["lbox"]
+        if t[1] == "mr":
+            loop.max_retries = box["mr"] = intd(t[2])
+        elif t[1] == "decay":
+            loop.confidence_decay = float_of(t[2])
+        elif t[1] == "gen" and t[2] == "new":
+            box["gen_id"] += 1
+            loop.generator = box["make_gen"](box["gen_id"])
+        elif t[1] == "chap" and t[2] == "new":
+            box["chap_id"] += 1
+            loop.chaperone = box["Chap"](box["chap_id"])
+        elif t[2] != "new":
+            return "bad-op"
+        return "ok"
+
+    def _heal(self, t):
+        loop, box = self._new_loop(intd(t[1]), float_of(t[2]), t[3] == "real")
+        return self._heal_on(loop, box, script_of(t[4]), script_of(t[5]))
+
+    def _hcall(self, st, t):
+        if st.get("loop") is None:
+            st["loop"], st["lbox"] = self._new_loop(3, 0.1, False)
+        return self._heal_on(st["loop"], st["lbox"], script_of(t[1]), script_of(t[2]))
+
+    def _heal_on(self, loop, box, gs, fs):
+        real = box["real"]
+        calls = []
+        prop = self
+        box["stale"] = []
+        in_force = [box["mr"]]          # every value max_retries held while this call was running
+
+        class Adv:
+            n = 0
+
+            def gen(self, prompt, error_context):
+                i = len(calls)
+                if i >= CAP:
+                    raise Runaway("generator")
+                rec = {"p": prompt == "P<7>", "ctx": error_context, "out": "x", "fold": "-", "raw": None, "f": None}
+                calls.append(rec)
+                item = pick(gs, i, "g")
+                if item in "rR":          # the generator itself re-assigns the public limit of the loop that is calling it
+                    loop.max_retries = box["mr"] = 0 if item == "r" else box["mr"] + 2
+                    in_force.append(box["mr"])
+                raw = prop._gen_raw(item, i, error_context)
+                rec["out"], rec["raw"] = "o", raw
+                return raw
+
+            def fold(self, real_chap, raw, schema, a, kw):
                 j = self.n
                 self.n += 1
                 rec = calls[-1] if calls else {}
                 rec["fold"] = "x"
-                if self.real is not None:
-                    f = self.real.fold_enhanced(raw, schema, *a, **kw)
+                if real_chap is not None:
+                    f = real_chap.fold_enhanced(raw, schema, *a, **kw)
                 else:
                     f = prop._fold_stub(pick(fs, j, "A"), j, raw)
                 rec["fold"] = "v" if f.valid else "i"
@@ -352,8 +509,7 @@ class C18(Prop):
                 rec["trace0"] = f.error_trace
                 rec["j"] = j
                 return f
-        loop = self.cl.ChaperoneLoop(generator=gen, chaperone=Chap(), schema=self.S, max_retries=mr,
-                                     confidence_decay=decay, silent=True)
+        box["adv"] = Adv()
         exc = None
         res = None
         try:
@@ -367,7 +523,8 @@ class C18(Prop):
         def ctx(x):
             return "none" if x is None else show_ns(sorted(nonces(x)))
         cs = "[" + ",".join(f"{show_bool(c['p'])}:{ctx(c['ctx'])}:{c['out']}{c['fold']}" for c in calls) + "]"
-        info = {"kind": "heal", "mr": mr, "calls": calls, "res": res, "exc": exc, "real": real, "echo": "e" in gs}
+        info = {"kind": "heal", "mr": max(in_force), "mr_entry": in_force[0], "calls": calls, "res": res, "exc": exc,
+                "real": real, "echo": "e" in gs, "stale": list(box["stale"])}
         if exc is not None:
             if isinstance(exc, AdvError):
                 return f"raise calls={cs}", info
@@ -384,17 +541,48 @@ class C18(Prop):
 
     # --- implementation: swarm -----------------------------------------------------------------------------------
     def _new_swarm(self, mreg, ms, thr):
-        prop = self
-        box = {"adv": None}
+        box = {"adv": None, "fac_id": 0, "summ_id": 0, "stale": []}
 
-        def fac(name, hints):
-            return box["adv"].factory(name, hints)
+        def make_fac(my_id):
+            def fac(name, hints):
+                if my_id != box["fac_id"]:
+                    box["stale"].append("worker_factory")
+                return box["adv"].factory(name, hints)
+            return fac
 
-        def summ(mem):
-            return box["adv"].summarize(mem)
-        sw = self.rs.RegenerativeSwarm(worker_factory=fac, summarizer=summ, entropy_threshold=thr,
+        def make_summ(my_id):
+            def summ(mem):
+                if my_id != box["summ_id"]:
+                    box["stale"].append("summarizer")
+                return box["adv"].summarize(mem)
+            return summ
+        box["make_fac"], box["make_summ"] = make_fac, make_summ
+        sw = self.rs.RegenerativeSwarm(worker_factory=make_fac(0), summarizer=make_summ(0), entropy_threshold=thr,
                                        max_steps_per_worker=ms, max_regenerations=mreg, silent=True)
         return sw, box
+
+    def _sset(self, st, t):
+        if st.get("swarm") is None:
+            st["swarm"], st["box"] = self._new_swarm(3, 10, 0.9)
+            st["cfg"] = (3, 10)
+        sw, box = st["swarm"], st["box"]
+        if t[1] == "mreg":
+            sw.max_regenerations = intd(t[2])
+            st["cfg"] = (intd(t[2]), st["cfg"][1])
+        elif t[1] == "ms":
+            sw.max_steps_per_worker = intd(t[2])
+            st["cfg"] = (st["cfg"][0], intd(t[2]))
+        elif t[1] == "thr":
+            sw.entropy_threshold = float_of(t[2])
+        elif t[1] == "factory" and t[2] == "new":
+            box["fac_id"] += 1
+            sw.worker_factory = box["make_fac"](box["fac_id"])
+        elif t[1] == "summ" and t[2] == "new":
+            box["summ_id"] += 1
+            sw.summarizer = box["make_summ"](box["summ_id"])
+        elif t[2] != "new":
+            return "bad-op"
+        return "ok"
 
     def _supervise(self, st, t):
         fs, ms_ = script_of(t[1]), script_of(t[3])
@@ -475,6 +663,7 @@ class C18(Prop):
                 return h
         adv = Adv()
         box["adv"] = adv
+        box["stale"] = []
         exc = res = None
         try:
             res = sw.supervise("T<7>")
@@ -492,7 +681,8 @@ class C18(Prop):
         swst = (f"{sw._worker_counter};[" + ",".join(f"{dig(e.worker_id)}:{hs(e.memory_summary)}" for e in sw._apoptosis_events)
                 + "];[" + ",".join(f"{dig(e.old_worker_id)}>{dig(e.new_worker_id)}:{hs(e.injected_summary)}"
                                    for e in sw._regeneration_events) + "]")
-        info = {"kind": "swarm", "cfg": st["cfg"], "spawns": adv.spawns, "res": res, "exc": exc}
+        info = {"kind": "swarm", "cfg": st["cfg"], "spawns": adv.spawns, "res": res, "exc": exc,
+                "stale": list(box["stale"])}
         if exc is not None:
             r = "raise" if isinstance(exc, AdvError) else f"raise:{type(exc).__name__}"
         else:
@@ -502,8 +692,40 @@ class C18(Prop):
         return f"{r} sw={swst} spawns={sps}", info
 
     # --- implementation: tool loop ---------------------------------------------------------------------------------
-    def _tools(self, t):
-        mi, ae, hsch, hapi = intd(t[1]), t[2] == "1", t[3] == "1", t[4] == "1"
+    def _nset(self, st, t):
+        if st.get("nuc") is None:
+            st["nuc"] = self.nu.Nucleus(provider=self._idle_provider())
+        nuc = st["nuc"]
+        if t[1] == "log":
+            if t[2] == "clear":
+                nuc.clear_log()
+            else:
+                nuc.transcription_log = []
+        elif t[1] == "mr":
+            nuc.max_retries = intd(t[2])
+        elif t[1] == "cost":
+            nuc.base_energy_cost = intd(t[2])
+        return "ok"
+
+    def _idle_provider(self):
+        LLMResponse = self.LLMResponse
+
+        class Idle:
+            name = "idle"
+
+            def is_available(self):
+                return True
+
+            def complete(self, prompt, config=None):
+                return LLMResponse("idle", "m", 1, 1.0)
+        return Idle()
+
+    def _tools(self, t, st=None):
+        """`tools …`: a fresh Nucleus; `ntools …` (st given): the live Nucleus of this case, whose provider attribute is
+        re-assigned for the call and whose transcription_log keeps growing.  hasSchemas 2 / 3 = the REAL
+        Mitochondria (with the scripted tool registered / with no tool at all) instead of the stub."""
+        mi, ae, hsch, hapi = intd(t[1]), t[2] == "1", t[3] in ("1", "2"), t[4] == "1"
+        real_mito = t[3] in ("2", "3")
         ps, ts, cs = script_of(t[5]), script_of(t[6]), script_of(t[7])
         evs = []
         cnt = {"p": 0, "e": 0, "c": 0}
@@ -583,14 +805,46 @@ class C18(Prop):
                     evs.append(("E", str(call.cid), "f"))
                     return Res(call.id, f"<{800 + e}>", False, f"<{100 + e}>" if item == "f" else "")
                 evs.append(("E", str(call.cid), "o"))
-                out = {"b": "", "w": " \n\t ", "n": None, "L": f"<{100 + e}>" + "z" * 4000 + f"<{700 + e}>",
-                       "U": f"résultat ñ 价格 <{100 + e}>",
-                       "P": f"Q<7>\n\nTool results:\nTool 'x' returned: <{100 + e}>"}.get(item, f"<{100 + e}>")
-                return Res(call.id, out, True, f"<{900 + e}>")
-        nuc = self.nu.Nucleus(provider=(WithTools() if hapi else Base()))
+                return Res(call.id, tool_out(item, e), True, f"<{900 + e}>")
+
+        def tool_out(item, e):
+            return {"b": "", "w": " \n\t ", "n": None, "L": f"<{100 + e}>" + "z" * 4000 + f"<{700 + e}>",
+                    "U": f"résultat ñ 价格 <{100 + e}>",
+                    "P": f"Q<7>\n\nTool results:\nTool 'x' returned: <{100 + e}>"}.get(item, f"<{100 + e}>")
+
+        def real_tool(cid=None, **kw):
+            """the scripted tool as a plain function registered on the real Mitochondria: it returns its output or
+            raises; Mitochondria.execute_tool_call turns an exception into a failed ToolResult carrying str(e)"""
+            e = cnt["e"]
+            cnt["e"] += 1
+            item = pick(ts, e, "o")
+            if item in "xufg":
+                evs.append(("E", str(cid), "f"))
+                raise (self.LIB_ERR["u"] if item == "u" else AdvError)("" if item == "g" else f"<{100 + e}>")
+            evs.append(("E", str(cid), "o"))
+            return tool_out(item, e)
+        if real_mito:
+            from operon_ai.organelles.mitochondria import Mitochondria
+            from operon_ai.providers import ToolCall
+            mito = Mitochondria(silent=True)
+            if hsch:
+                mito.register_function("t", real_tool, "scripted tool")
+
+            def Call(cid):                       # noqa: the real ToolCall
+                return ToolCall(id=f"<{500 + cid}>", name="t", arguments={"cid": cid})
+        else:
+            mito = Mito()
+        provider = WithTools() if hapi else Base()
+        if st is None:
+            nuc = self.nu.Nucleus(provider=provider)
+        else:
+            if st.get("nuc") is None:
+                st["nuc"] = self.nu.Nucleus(provider=self._idle_provider())
+            nuc = st["nuc"]
+            nuc.provider = provider
         exc = res = None
         try:
-            res = nuc.transcribe_with_tools("Q<7>", Mito(), max_iterations=mi, auto_execute=ae)
+            res = nuc.transcribe_with_tools("Q<7>", mito, max_iterations=mi, auto_execute=ae)
         except Exception as e:   # noqa
             exc = e
         log = "[" + ",".join(f"{view(x.prompt)}:{getattr(x.response, 'rid', '?')}" for x in nuc.transcription_log) + "]"
@@ -693,6 +947,22 @@ class C18(Prop):
                 o, info = self._supervise(st, t)
             elif len(t) == 8 and t[0] == "tools":
                 o, info = self._tools(t)
+            elif len(t) == 8 and t[0] == "ntools":
+                o, info = self._tools(t, st)
+            elif t == ["nucleus"]:
+                st["nuc"] = self.nu.Nucleus(provider=self._idle_provider())
+                o = "ok"
+            elif len(t) == 3 and t[0] == "nset":
+                o = self._nset(st, t)
+            elif len(t) == 4 and t[0] == "loop":
+                st["loop"], st["lbox"] = self._new_loop(intd(t[1]), float_of(t[2]), t[3] == "real")
+                o = "ok"
+            elif len(t) == 3 and t[0] == "hset" and (t[1] in ("mr", "decay") or t[2] == "new"):
+                o = self._hset(st, t)
+            elif len(t) == 3 and t[0] == "hcall":
+                o, info = self._hcall(st, t)
+            elif len(t) == 3 and t[0] == "sset" and (t[1] in ("mreg", "ms", "thr") or t[2] == "new"):
+                o = self._sset(st, t)
             elif len(t) == 4 and t[0] == "retools":
                 o, info = self._retools(t)
             else:
@@ -711,6 +981,9 @@ class C18(Prop):
             exc = info["exc"]
             if exc is not None and not isinstance(exc, AdvError):
                 V("loop_returns_or_propagates_adversary_error", "a result or the adversary's own exception", repr(exc))
+            for what in info.get("stale", ()):
+                # "calls its generator": the callable the attribute holds NOW, not one that was replaced earlier
+                V("callback_in_force", f"the {what} currently assigned to the object", f"a replaced {what} was called")
             if info["kind"] == "heal":
                 self._oracle_heal(info, V)
             elif info["kind"] == "swarm":
